@@ -345,7 +345,13 @@ def _cycle_check(ctx: Ctx, c: Collector) -> None:
                 comb = ("op", "+", s2m, m2d)
                 val = e.term[2]
                 um = val[1][0] if val[0] == "tuple" and val[1] else val
-                if not (um[0] == "call" and um[1] == T.glob(UPDATE_MIN) and len(um[2]) == 2):
+                if um == comb:
+                    # stored directly: that the store only happens when the new delay is smaller is R5's obligation (every store
+                    # into a min-table is min-combined, whether through update_min or an explicit comparison)
+                    pass
+                elif um == ("op", "+", m2d, s2m):
+                    pr.append("operands of the path sum are swapped (mid->dest + src->mid): TieredInterval addition is not commutative")
+                elif not (um[0] == "call" and um[1] == T.glob(UPDATE_MIN) and len(um[2]) == 2):
                     pr.append("the combined delay is not stored through update_min")
                 else:
                     if um[2][1] != comb:
@@ -360,7 +366,16 @@ def _cycle_check(ctx: Ctx, c: Collector) -> None:
                         pr.append("update_min does not compare with the existing entry descendants[src][dest]")
                 if full_t[e.idx] != ("idx", ("idx", table, srcv), destv):
                     pr.append(f"the result is stored in {T.show(full_t[e.idx])} instead of descendants[src][dest]")
-                if not (val[0] == "tuple" and len(val[1]) == 2 and val[1][1] == ("bag", (("elem", srcv, (), ()),) + (), "list") or (val[0] == "tuple" and len(val[1]) == 2 and val[1][1][0] == "op" and val[1][1][1] == "+" and T.contains(val[1][1], path) and T.contains(val[1][1], srcv))):
+                def _path_ok(pv: Term) -> bool:
+                    pv = T.strip(pv)
+                    if pv[0] == "op" and pv[1] == "+" and T.contains(pv, path) and T.contains(pv, srcv):
+                        return True
+                    # [src, *path]
+                    if pv[0] in ("bag", "tuple"):
+                        els = [x[1] if pv[0] == "bag" else x for x in pv[1]]
+                        return len(els) == 2 and els[0] == srcv and T.strip(els[1]) in (("star", path), path)
+                    return False
+                if not (val[0] == "tuple" and len(val[1]) == 2 and (val[1][1] == ("bag", (("elem", srcv, (), ()),) + (), "list") or _path_ok(val[1][1]))):
                     pr.append("the stored path is not [src] + path")
                 # re-queue src under the same condition
                 adds = [x for x in s.of_kind("call") if dirty is not None and x.term[1] == ("attr", dirty, "add") and x.iters == e.iters and guards_equiv(x.guards, e.guards)]
@@ -387,7 +402,10 @@ def _cycle_check(ctx: Ctx, c: Collector) -> None:
             # `e = descs.get(sim); if e is None: continue` is `if sim not in descs: continue` (entries are tuples)
             got = call(("attr", descs, "get"), simv)
             norm = {got: entry}
-            gts = [T.replace(x, norm) for x in gts]
+            flat = []
+            for x in gts:
+                flat += list(x[1]) if x[0] == "and" else [x]
+            gts = [T.replace(x, norm) for x in flat]
             gts = [("cmp", "in", simv, descs) if x == ("cmp", "isnot", entry, T.NONE) else x for x in gts]
             r = Event(r.idx, r.kind, T.replace(r.term, norm), r.raw, r.node, r.stmt, r.guards, r.iters, r.tries, r.awaited, r.extra)
             delay = ("idx", entry, T.const(0))
